@@ -144,6 +144,10 @@ pub(crate) fn is_plain_safe(s: &str) -> bool {
     if bytes[bytes.len() - 1] == b' ' {
         return false;
     }
+    // A leading byte order mark would be consumed by the reader as the stream's BOM.
+    if s.starts_with('\u{FEFF}') {
+        return false;
+    }
 
     // YAML indicators are only special in certain forms.
     // For example, "-a" and "?query" are valid plain scalars, while "-" / "?"
@@ -185,6 +189,10 @@ pub(crate) fn is_plain_value_safe(s: &str, yaml_12: bool, in_flow: bool) -> bool
     }
     // Trailing blanks are not part of a plain scalar: the reader strips them.
     if bytes[bytes.len() - 1] == b' ' {
+        return false;
+    }
+    // A leading byte order mark would be consumed by the reader as the stream's BOM.
+    if s.starts_with('\u{FEFF}') {
         return false;
     }
 
